@@ -366,3 +366,70 @@ def b4(prog):
                                 "splices (`\"%%( \"%%( ... %%)\" %%)\"`, 24 KB for 3000 levels) overflows the C stack and zw_query_parse* crashes instead of returning an error"
                                 % " -> ".join(n for n in names if n not in ("yylex",)) , "detail": None})
     return inst, findings
+
+
+# ---------------------------------------------------------------------------
+# B5: a null error pointer goes only to callees that cannot report an error
+
+def b5(prog):
+    """allocate_error () / capture_errors () store through the zw_error ** they are given.  Inside the library a few calls pass
+    nullptr for that parameter, relying on the callee never failing; the rule checks that reliance: no function that can reach
+    allocate_error/capture_errors with one of its own zw_error ** parameters is ever called with a null literal in that position."""
+    inst, findings = [], []
+    funcs = prog.funcs
+    memo = {}
+
+    def is_errpp(t):
+        return (t or "").replace(" ", "").replace("struct", "") in ("zw_error**",)
+
+    def reports(fid, idx, depth=0):
+        key = (fid, idx)
+        if key in memo:
+            return memo[key]
+        memo[key] = None
+        f = funcs.get(fid)
+        if f is None or f.get("body") is None or depth > 5:
+            return None
+        pid = f["params"][idx]["id"] if idx < len(f["params"]) else None
+        why = None
+        for c in calls(f["body"]):
+            for j, a in enumerate(c.get("a", [])):
+                u = unwrap(a)
+                if not (isinstance(u, dict) and u.get("k") == "ref" and u.get("id") == pid):
+                    continue
+                if c.get("fn") in ("allocate_error", "capture_errors"):
+                    why = "%s stores an error through it at %s" % (f["q"], c.get("l"))
+                elif c.get("fid") in funcs:
+                    r = reports(c["fid"], j, depth + 1)
+                    if r:
+                        why = "%s passes it on at %s; %s" % (f["q"], c.get("l"), r)
+            if why:
+                break
+        memo[key] = why
+        return why
+    n = 0
+    for f in funcs.values():
+        if not prog.rel(f["file"]).startswith("libzwerg/") or f.get("body") is None:
+            continue
+        for c in calls(f["body"]):
+            callee = funcs.get(c.get("fid"))
+            if callee is None:
+                continue
+            for j, (p, a) in enumerate(zip(callee["params"], c.get("a", []))):
+                if not is_errpp(p.get("t")):
+                    continue
+                u = unwrap(a)
+                if not (isinstance(u, dict) and u.get("k") == "null"):
+                    continue
+                n += 1
+                key = "B5:%s->%s" % (f["q"], callee["q"])
+                why = reports(callee["fid"], j)
+                inst.append((key, {"call": c.get("l"), "callee_can_report": bool(why)}))
+                if why:
+                    findings.append({"key": key, "where": "libzwerg/" + (c.get("l") or f["l"]),
+                                     "msg": "%s calls %s with a null error pointer, but %s: the error object would be written through NULL (crash instead of an error return)" % (f["q"], callee["q"], why),
+                                     "detail": None})
+    inst.append(("B5:null-error-pointer-calls", {"sites": n}))
+    if n < 1:
+        raise Broken("no internal call with a null error pointer found (the rule's anchor, zw_value_dwarf_machine -> zw_machine_init, vanished)")
+    return inst, findings
